@@ -110,6 +110,44 @@ def argdig(obj):
     return hashlib.sha256(b''.join(out)).hexdigest()[:20]
 
 
+def owner_roots(obj, out=None):
+    """The arrays that OWN the memory an array argument is a view of: the end of the `.base` chain of the data array and,
+    for masked arrays, of the mask array (`_mask`).  Collected BEFORE the call (a call may rebind `_mask`, which detaches
+    the argument from the mask it shared) and digested before and after: an argument's value includes the buffers it shares."""
+    import numpy as np
+    out = [] if out is None else out
+
+    def root(a):
+        n = 0
+        while isinstance(getattr(a, 'base', None), np.ndarray) and n < 64:
+            a = a.base
+            n += 1
+        return a
+    if isinstance(obj, np.ndarray):
+        out.append(root(obj))
+        if isinstance(obj, np.ma.MaskedArray) and isinstance(obj._mask, np.ndarray) and obj._mask.ndim:
+            out.append(root(obj._mask))
+    elif isinstance(obj, (list, tuple)):
+        for v in obj:
+            owner_roots(v, out)
+    elif isinstance(obj, dict):
+        for v in obj.values():
+            owner_roots(v, out)
+    return out
+
+
+def ownerdig(roots):
+    import numpy as np
+    out = []
+    for a in roots:
+        d = np.asarray(a.data) if isinstance(a, np.ma.MaskedArray) else np.asarray(a)
+        out.append(b'O' + d.dtype.str.encode() + str(d.shape).encode() + str(d.strides).encode())
+        out.append(np.ascontiguousarray(d).tobytes())
+        if isinstance(a, np.ma.MaskedArray):
+            out.append(np.ascontiguousarray(np.ma.getmaskarray(a)).tobytes())
+    return hashlib.sha256(b''.join(out)).hexdigest()[:20]
+
+
 # --------------------------------------------------------------------------------------------------
 # fixtures (pure numpy; no dadi state is touched while building arguments, except where noted)
 # --------------------------------------------------------------------------------------------------
@@ -188,7 +226,24 @@ def fs_fix(shape, seed, folded=False, interior_mask=False, lay='C', pop_ids=None
         m.flat[0] = m.flat[-1] = True
     if interior_mask:
         m.flat[m.size // 2] = True
-    fs = dadi.Spectrum(layn(d, lay), mask=layn(m, lay), pop_ids=pop_ids, mask_corners=corners)
+    if lay in ('S', 'N', 'V'):
+        # a VIEW of a larger / reversed owning Spectrum (fs[::2], fs[::-1], fs[1:-1]): data and mask memory are the owner's;
+        # the owner's corners are not masked, elsewhere it is unmasked filler
+        nd = len(shape)
+        if lay == 'S':
+            bshape, ix = [2 * k - 1 for k in shape], (slice(None, None, 2),) * nd
+        elif lay == 'N':
+            bshape, ix = list(shape), (slice(None, None, -1),) * nd
+        else:
+            bshape, ix = [k + 2 for k in shape], (slice(1, -1),) * nd
+        bigd = np.full(bshape, 3.25)
+        bigd[ix] = d
+        bigm = np.zeros(bshape, dtype=bool)
+        bigm[ix] = m
+        owner = dadi.Spectrum(bigd, mask=bigm, pop_ids=pop_ids, mask_corners=False)
+        fs = owner[ix]
+    else:
+        fs = dadi.Spectrum(layn(d, lay), mask=layn(m, lay), pop_ids=pop_ids, mask_corners=corners)
     if folded:
         fs = fs.fold()
     return fs
@@ -1374,6 +1429,24 @@ def _fpt(lay, xl):
             (lambda a: dadi.Spectrum.from_phi(a['phi'], a['ns'], a['xxs'])))
 
 
+# ---- round 6: Spectrum arguments whose corner entries are present and NOT masked (so that a call that masks the corners
+#      temporarily really writes), offered as views of an owning Spectrum (layouts S, N, V)
+_mk_stat('watterson_1d_open', 'Spectrum.Watterson_theta', (9,), lambda fs: fs.Watterson_theta(), corners=False)
+_mk_stat('pi_1d_open', 'Spectrum.pi', (9,), lambda fs: fs.pi(), corners=False)
+_mk_stat('tajima_1d_open', 'Spectrum.Tajima_D', (9,), lambda fs: fs.Tajima_D(), corners=False)
+_mk_stat('zengs_E_1d_open', 'Spectrum.Zengs_E', (9,), lambda fs: fs.Zengs_E(), corners=False)
+_mk_stat('theta_L_1d_open', 'Spectrum.theta_L', (9,), lambda fs: fs.theta_L(), corners=False)
+_mk_stat('fst_2d_open', 'Spectrum.Fst', (5, 4), lambda fs: fs.Fst(), corners=False)
+_mk_stat('fold_2d_open', 'Spectrum.fold', (5, 4), lambda fs: fs.fold(), corners=False)
+_mk_stat('marginalize_2d_open', 'Spectrum.marginalize', (5, 4), lambda fs: fs.marginalize([1]), corners=False)
+_mk_stat('project_1d_8_4_open', 'Spectrum.project', (9,), lambda fs: fs.project([4]), corners=False)
+_mk_stat('log_2d_open', 'Spectrum.log', (5, 4), lambda fs: fs.log(), corners=False)
+_mk_stat('ll_2d_open', 'Inference.ll', (5, 4), lambda fs: float(__import__('dadi').Inference.ll(fs, fs_fix((5, 4), 37, interior_mask=True))), corners=False)
+_mk_stat('ll_multinom_2d_open', 'Inference.ll_multinom', (5, 4),
+         lambda fs: float(__import__('dadi').Inference.ll_multinom(fs, fs_fix((5, 4), 37, interior_mask=True))), corners=False)
+_mk_stat('ll_data_view_2d_open', 'Inference.ll', (5, 4), lambda fs: float(__import__('dadi').Inference.ll(fs_fix((5, 4), 31), fs)), corners=False)
+
+
 @reg('from_phi_inb_2d_42_arrays', 'Spectrum.from_phi_inbreeding')
 def _fpia(lay, xl):
     import dadi
@@ -1428,6 +1501,8 @@ def evaluate(cid, detailed=False):
             _DEMES_STATE['model'] = False
     args, run = ent['make'](lay, xl)
     before = {k: argdig(v) for k, v in args.items()}
+    owners = {k: owner_roots(v) for k, v in args.items()}
+    obefore = {k: ownerdig(v) for k, v in owners.items()}
     res = None
     try:
         old = np.seterr(all='ignore')
@@ -1445,7 +1520,8 @@ def evaluate(cid, detailed=False):
         sh = False
         if isinstance(res, np.ndarray) and isinstance(v, np.ndarray):
             sh = bool(np.shares_memory(np.asarray(res), np.asarray(v)))
-        argobs.append({'name': k, 'before': before[k], 'after': argdig(v), 'shares': sh, 'same_object': res is v})
+        argobs.append({'name': k, 'before': before[k], 'after': argdig(v), 'shares': sh, 'same_object': res is v,
+                       'obefore': obefore[k], 'oafter': ownerdig(owners[k]), 'is_view': any(r is not v for r in owners[k][:1])})
     # the follow-up a caller of an integrator makes: work on the returned density IN PLACE (every entry is rewritten),
     # then look at the arguments again.  (Integrators only: other calls may hand out objects held by a memo table.)
     wrote = False
